@@ -31,7 +31,7 @@ func execTaskQ(args []string) string {
 		return "bad-op only-max-1-is-constructible"
 	}
 	h := newRecorder()
-	conn, _, _, err := serverConnRaw(&gws.ServerOption{}, h, "")
+	conn, _, peer, err := serverConnRaw(&gws.ServerOption{}, h, "")
 	if err != nil {
 		return "handshake-failed"
 	}
@@ -91,6 +91,19 @@ func execTaskQ(args []string) string {
 	}
 	if args[1] != "." {
 		for _, a := range strings.Split(args[1], ",") {
+			if a == "z" { // a nil task is submitted: nothing to run, and it must not disturb the queue
+				conn.Async(nil)
+				continue
+			}
+			if a == "x" { // the connection ends (peer vanishes, read loop returns): queued tasks still run, each once
+				go conn.ReadLoop()
+				_ = peer.Close()
+				if !h.WaitClosed(3 * time.Second) {
+					return "close-callback-missing"
+				}
+				time.Sleep(2 * time.Millisecond) // let the read loop get past its teardown
+				continue
+			}
 			id, _ := strconv.Atoi(a[1:])
 			if a[0] == 'p' {
 				submit(id)
@@ -280,6 +293,30 @@ func genTaskQ(g *Gen) {
 				unfinished = append(unfinished, id)
 				id++
 			} else {
+				acts = append(acts, "n"+strconv.Itoa(unfinished[0]))
+				unfinished = unfinished[1:]
+			}
+		}
+		g.Emit("taskq 1 %s", strings.Join(acts, ","))
+	}
+	// nil submissions (z) and the end of the connection (x, once) in between: both leave the queue as it is
+	for i := 0; i < g.pick(60, 600); i++ {
+		n := 4 + g.R.Intn(16)
+		var acts []string
+		var unfinished []int
+		id, closed := 1, false
+		for j := 0; j < n; j++ {
+			switch c := g.R.Intn(10); {
+			case c < 2:
+				acts = append(acts, "z")
+			case c == 2 && !closed:
+				acts = append(acts, "x")
+				closed = true
+			case len(unfinished) == 0 || c < 7:
+				acts = append(acts, "p"+strconv.Itoa(id))
+				unfinished = append(unfinished, id)
+				id++
+			default:
 				acts = append(acts, "n"+strconv.Itoa(unfinished[0]))
 				unfinished = unfinished[1:]
 			}
